@@ -109,7 +109,10 @@ func (g *gen) randInst(proglen int) B {
 		for k := g.rng.Intn(4); k >= 0; k-- {
 			pred = append(pred, g.randSimple()...)
 		}
-		lims := []B{{}, {1}, {byte(g.rng.Intn(80))}, {byte(g.rng.Intn(256)), byte(g.rng.Intn(4))}}
+		lims := []B{{}, {1}, {byte(g.rng.Intn(80))}, {byte(g.rng.Intn(256)), byte(g.rng.Intn(4))}, b63m1, b63, b63p1, b64m1, b64}
+		if len(pred) == 0 {
+			pred = B{0x51}
+		}
 		return cat(push(B{byte(g.rng.Intn(3))}), push(pred), push(lims[g.rng.Intn(len(lims))]), B{0xc0})
 	case x < 72: // refunding / copying stack instructions
 		ops := []byte{0x75, 0x6d, 0x76, 0x6e, 0x6f, 0x77, 0x78, 0x7d, 0x6b, 0x6c, 0x73, 0x74, 0x82, 0x7e, 0x89, 0x7c, 0x7b, 0x69, 0x87, 0x9a}
@@ -117,6 +120,10 @@ func (g *gen) randInst(proglen int) B {
 	case x < 80:
 		return cat(push(B{byte(g.rng.Intn(4))}), B{byte(0x79 + g.rng.Intn(2))}) // k PICK / ROLL
 	case x < 84:
+		if g.rng.Intn(4) == 0 {
+			bo := boundaryOperands()
+			return cat(push(bo[g.rng.Intn(len(bo))]), B{byte(0x7f + g.rng.Intn(3))}) // boundary size: SUBSTR / LEFT / RIGHT
+		}
 		return cat(push(B{byte(g.rng.Intn(6))}), B{byte(0x80 + g.rng.Intn(2))}) // k LEFT / RIGHT
 	case x < 88:
 		return B{[]byte{0xa8, 0xaa, 0xab, 0xae}[g.rng.Intn(4)]}
@@ -216,6 +223,61 @@ func (g *gen) predicateLoops(quick bool) {
 	}
 }
 
+// operands at the int64 / uint64 boundaries (and small ones next to them)
+var (
+	b63m1 = B{0xff, 0xff, 0xff, 0xff, 0xff, 0xff, 0xff, 0x7f}
+	b63   = B{0, 0, 0, 0, 0, 0, 0, 0x80}
+	b63p1 = B{1, 0, 0, 0, 0, 0, 0, 0x80}
+	b64m1 = B{0xff, 0xff, 0xff, 0xff, 0xff, 0xff, 0xff, 0xff}
+	b64   = B{0, 0, 0, 0, 0, 0, 0, 0, 1}
+)
+
+func boundaryOperands() []B {
+	return []B{{}, {1}, {40}, {0x2c, 0x01}, b63m1, b63, b63p1, b64m1, b64, {0xfe, 0xff, 0xff, 0xff, 0xff, 0xff, 0xff, 0x7f}, {0, 0, 0, 0, 0, 0, 0, 0xc0}}
+}
+
+// operands that instructions turn into gas amounts: the limit of CHECKPREDICATE (with non-empty predicates), the size of
+// SUBSTR / LEFT / RIGHT, the index of PICK / ROLL - at 2^63-1, 2^63, 2^63+1, 2^64-1, 2^64 next to small values.
+// A value that is not an int64 must fail as a bad value; it can never move the parent's gas upwards.
+func (g *gen) operandBoundaries() {
+	preds := []B{{0x51}, {0x61, 0x51}, {0x76}, {0x93}, {0x6a}, {0x82}, {0x63, 0, 0, 0, 0}, {0x00, 0x01, 0x51, 0x00, 0xc0}}
+	for _, lim := range boundaryOperands() {
+		for pi, p := range preds {
+			for _, n := range []B{{}, {1}, {2}} {
+				for _, glim := range []int64{10000, 400} {
+					if (len(n) > 0 && n[0] == 2 || glim == 400) && pi > 3 {
+						continue
+					}
+					// items ; n predicate limit CHECKPREDICATE ; then some more work that needs gas
+					prog := cat(B{0x52, 0x53}, push(n), push(p), push(lim), B{0xc0, 0x75, 0x51, 0x76, 0x75})
+					g.add("limit-boundary", prog, nil, glim)
+				}
+			}
+		}
+		// the call followed by far more instructions than the gas limit pays for
+		long := cat(B{0x00}, push(B{0x51}), push(lim), B{0xc0})
+		for k := 0; k < 3000; k++ {
+			long = append(long, 0x61)
+		}
+		g.add("limit-boundary-long", append(long, 0x51), nil, 900)
+		// nested: the boundary limit is used by a child
+		inner := cat(B{0x00}, push(B{0x51}), push(lim), B{0xc0})
+		g.add("limit-boundary", cat(B{0x00}, push(inner), B{0x00, 0xc0, 0x51}), nil, 10000)
+		// sizes / indexes
+		str := B{0x61, 0x62, 0x63, 0x64, 0x65, 0x66}
+		for _, glim := range []int64{10000, 60} {
+			g.add("size-boundary", cat(push(str), push(lim), B{0x80, 0x51}), nil, glim)               // LEFT
+			g.add("size-boundary", cat(push(str), push(lim), B{0x81, 0x51}), nil, glim)               // RIGHT
+			g.add("size-boundary", cat(push(str), push(B{1}), push(lim), B{0x7f, 0x51}), nil, glim)   // SUBSTR size
+			g.add("size-boundary", cat(push(str), push(lim), push(B{1}), B{0x7f, 0x51}), nil, glim)   // SUBSTR offset
+			g.add("size-boundary", cat(push(str), push(str), push(lim), B{0x79, 0x51}), nil, glim)    // PICK
+			g.add("size-boundary", cat(push(str), push(str), push(lim), B{0x7a, 0x51}), nil, glim)    // ROLL
+			g.add("size-boundary", cat(push(str), push(lim), push(B{1}), B{0xad}), nil, glim)         // CHECKMULTISIG count
+			g.add("size-boundary", cat(B{0x00}, push(cat(push(str), push(lim), B{0x80})), B{0x00, 0xc0, 0x51}), nil, glim) // LEFT in a child
+		}
+	}
+}
+
 func (g *gen) zeroCost() {
 	msg := make(B, 32)
 	g.rng.Read(msg)
@@ -233,6 +295,7 @@ func generate(args []string) []*vmh.Case {
 	quick := len(args) == 0 || args[0] != "thorough"
 	g := &gen{rng: rand.New(rand.NewSource(vh.Seed()*15485863 + 7))}
 	g.zeroCost()
+	g.operandBoundaries()
 	g.predicateLoops(quick)
 	if quick {
 		g.random(900)
